@@ -29,7 +29,10 @@ TooBigStake == 415
 UnbondBlocked == 416
 EqualPubKey == 417
 
-StakingTypes == {"Delegate", "Unbond", "MoveStake", "LockStake", "SetCandidateOn", "SetCandidateOff"}
+HaltAlreadyExists == 118
+VoteExpired == 120
+VoteAlreadyExists == 121
+StakingTypes == {"Delegate", "Unbond", "MoveStake", "LockStake", "SetCandidateOn", "SetCandidateOff", "SetHaltBlock", "VoteUpdate"}
 
 \* world constants: cfg is a record with chain, unbond, move, jail, stakePeriod, initial and optionally lock, window, grace, minStake
 LockPeriod(cfg) == IF "lock" \in DOMAIN cfg THEN cfg.lock ELSE 34560
@@ -144,6 +147,27 @@ RunSetOff(s, tx) ==
       ELSE IF FeeShort(s, tx) THEN FailWith(InsufficientFunds, s, tx, tx.sender)
       ELSE Res(OK, DropVal([Paid(s, tx) EXCEPT !.cands[p].status = 1], p), PriceFor(s, tx))
 
+\* ---------------------------------------------------------------- governance votes: SetHaltBlock, VoteUpdate
+\* a vote is [h, votes (candidate keys in order of arrival), what]; one entry per height for halts, one per (height, version) for updates
+VotesField(t) == IF t = "SetHaltBlock" THEN "haltVotes" ELSE "updVotes"
+VoteWhat(tx) == IF tx.type = "SetHaltBlock" THEN "halt" ELSE tx.args.version
+Voted(s, tx) == \E v \in Range(s[VotesField(tx.type)]) : v.h = tx.args.height /\ tx.args.pub \in Range(v.votes)
+AddVote(s, tx) ==
+   LET f == VotesField(tx.type)
+       idx == {i \in DOMAIN s[f] : s[f][i].h = tx.args.height /\ s[f][i].what = VoteWhat(tx)}
+   IN IF idx = {} THEN [s EXCEPT ![f] = Append(@, [h |-> tx.args.height, votes |-> <<tx.args.pub>>, what |-> VoteWhat(tx)])]
+      ELSE [s EXCEPT ![f][MinOf(idx)].votes = Append(@, tx.args.pub)]
+RunVote(s, tx, h) ==
+   LET p == tx.args.pub
+       code == IF tx.args.height < h THEN VoteExpired
+               ELSE IF Voted(s, tx) THEN (IF tx.type = "SetHaltBlock" THEN HaltAlreadyExists ELSE VoteAlreadyExists)
+               ELSE IF p \notin DOMAIN s.cands THEN CandidateNotFound
+               ELSE IF tx.sender # s.cands[p].owner THEN IsNotOwnerOfCandidate
+               ELSE OK
+   IN IF code # OK THEN FailWith(code, s, tx, tx.sender)
+      ELSE IF FeeShort(s, tx) THEN FailWith(InsufficientFunds, s, tx, tx.sender)
+      ELSE Res(OK, AddVote(Paid(s, tx), tx), PriceFor(s, tx))
+
 \* ---------------------------------------------------------------- the executor for both families
 RunTxS(s, tx, h, cfg) ==
    IF tx.type \in LedgerTypes THEN RunTx(s, tx, h, cfg.chain)
@@ -158,6 +182,7 @@ RunTxS(s, tx, h, cfg) ==
           [] tx.type = "LockStake" -> RunLockStake(s, tx, h, cfg)
           [] tx.type = "SetCandidateOn" -> RunSetOn(s, tx, h)
           [] tx.type = "SetCandidateOff" -> RunSetOff(s, tx)
+          [] tx.type \in {"SetHaltBlock", "VoteUpdate"} -> RunVote(s, tx, h)
 
 \* ================================================================ BeginBlock
 InGrace(s, h, cfg) == \/ (h >= cfg.initial - 1 /\ h <= cfg.initial - 1 + GraceLen(cfg))
@@ -225,6 +250,21 @@ AccrueS(s, present, cap) ==
        gain(v) == IF v.p \in present /\ ~v.toDrop THEN (share ** v.stake) // total ELSE Zero
        vals2 == [i \in DOMAIN s.vals |-> [s.vals[i] EXCEPT !.accum = IF s.vals[i].toDrop THEN Zero ELSE @ ++ gain(s.vals[i])]]
    IN [s EXCEPT !.vals = vals2, !.slashed = @ ++ (share -- SumOver(s.vals, gain))]
+
+\* governance: a proposal passes with strictly more than two thirds of the power of the validators present (and not being dropped)
+PowerOfKeys(s, present, keys) == SumOver(SelectSeq(Powered(s, present), LAMBDA v : v.p \in keys), LAMBDA v : v.stake)
+MoreThanTwoThirds(voted, total) == (Nat2A(2) ** total) \prec (Nat2A(3) ** voted)
+HaltedAt(s, h, present) ==
+   \E v \in Range(s.haltVotes) : v.h = h /\ MoreThanTwoThirds(PowerOfKeys(s, present, Range(v.votes)), TotalPower(s, present))
+\* the version with the largest support (the first one among equals, none without any support) wins if it has more than two thirds
+UpdateWinner(s, h, present) ==
+   LET vs == SelectSeq(s.updVotes, LAMBDA v : v.h = h)
+       pw(i) == PowerOfKeys(s, present, Range(vs[i].votes))
+       best == {i \in DOMAIN vs : (\A j \in DOMAIN vs : pw(j) \preceq pw(i)) /\ (\A j \in 1..(i - 1) : pw(j) \prec pw(i))}
+   IN IF vs = <<>> THEN ""
+      ELSE LET b == MinOf(best) IN IF Zero \prec pw(b) /\ MoreThanTwoThirds(pw(b), TotalPower(s, present)) THEN vs[b].what ELSE ""
+ApplyUpdate(s, h, present) ==
+   LET w == UpdateWinner(s, h, present) IN IF w = "" THEN s ELSE [s EXCEPT !.versions = Append(@, [name |-> w, h |-> h])]
 
 \* payout of one validator (no owner has locked stakes): 10% DAO, 10% developers, commission, delegators by bip value; everything is delegated
 Tenth(a) == a // Nat2A(10)
@@ -301,8 +341,12 @@ EndS(s, h, present, cfg, unit, cap, keyChanged) ==
        s3 == IF s.emission \prec cap THEN [s2 EXCEPT !.emission = @ ++ s.safeReward] ELSE s2
        burn == s.safeReward -- s.reward
        s4 == IF s.emission \prec cap /\ Zero \prec burn THEN AddBal(s3, "zero", Base, burn) ELSE s3
-   IN IF IsPayoutH(h, cfg) \/ dropped THEN UpdateVals(s4, cfg, unit) ELSE s4
+       s6 == [s4 EXCEPT !.versions = ApplyUpdate(s, h, present).versions]     \* votes are counted with the powers EndBlock starts with
+   IN IF IsPayoutH(h, cfg) \/ dropped THEN UpdateVals(s6, cfg, unit) ELSE s6
 
 \* ================================================================ Commit: emptied stakes free their slots
-CommitS(s) == [s EXCEPT !.cands = [p \in DOMAIN @ |-> [@[p] EXCEPT !.stakes = SelectSeq(@, LAMBDA x : x.v # Zero)]]]
+\* Commit: emptied stakes free their slots; the votes counted at this height are forgotten
+CommitS(s) == [s EXCEPT !.cands = [p \in DOMAIN @ |-> [@[p] EXCEPT !.stakes = SelectSeq(@, LAMBDA x : x.v # Zero)]],
+                        !.updVotes = SelectSeq(@, LAMBDA v : v.h # s.h),
+                        !.haltVotes = SelectSeq(@, LAMBDA v : v.h # s.h)]
 =============================================================================
